@@ -8,7 +8,8 @@
   every probe; the model keeps the parsed keys (`all`, what `UnmarshalBinary`
   walked) and the sub-list still referenced by `offsets` (`live`).
   `bytesutil.SearchBytesFixed` is ported as it is: its upper bound starts at the
-  LAST element, so it never answers "past the end".
+  LAST element, so it never answers "past the end"; `searchOffset` compares the key
+  found with the target (repaired code).
 -/
 import Influx.Model.TsmFile
 
@@ -29,7 +30,8 @@ structure Index where
 deriving Repr, Inhabited
 
 /-- `UnmarshalBinary`: min over the first entries' MinTime starting from MaxInt64,
-    max over the last entries' MaxTime starting from 0. -/
+    max over the last entries' MaxTime starting from MinInt64
+    (fixes/C08-timerange-max-time.patch: it started from 0). -/
 def scanMinTime (kes : List KeyEntry) : Int :=
   kes.foldl (fun m ke => match ke.entries.head? with
     | some e => if e.MinTime < m then e.MinTime else m
@@ -38,7 +40,7 @@ def scanMinTime (kes : List KeyEntry) : Int :=
 def scanMaxTime (kes : List KeyEntry) : Int :=
   kes.foldl (fun m ke => match ke.entries.getLast? with
     | some e => if e.MaxTime > m then e.MaxTime else m
-    | none => m) 0
+    | none => m) minInt64
 
 def mkIndex (kes : List KeyEntry) : Index :=
   { all := kes, live := kes,
@@ -60,9 +62,14 @@ def searchLoop (live : List KeyEntry) (target : Key) : Nat → Nat → Nat → N
         else searchLoop live target fuel (h + 1) j
     else i
 
-/-- `indirectIndex.searchOffset` (= `Seek`) -/
+/-- `indirectIndex.searchOffset` (= `Seek`): the position found by the search if the
+    key there is not less than `key`, else the key count (fixes/C08-seek-past-end.patch:
+    before it the position was returned unconditionally). -/
 def searchOffset (ix : Index) (key : Key) : Nat :=
-  searchLoop ix.live key ix.live.length 0 (ix.live.length - 1)
+  let i := searchLoop ix.live key ix.live.length 0 (ix.live.length - 1)
+  match ix.live[i]? with
+  | some ke => if kle key ke.key then i else ix.live.length
+  | none => ix.live.length
 
 /-- `indirectIndex.ContainsKey`: inside the original key range -/
 def containsKey (ix : Index) (key : Key) : Bool :=
